@@ -2,7 +2,7 @@
 From stdpp Require Import gmap list.
 From Coq Require Import NArith ZArith.
 From VFS Require Import Core.Types Core.Prog Core.Calls Base.MemFS Base.Handles Base.Store Layer.VfsPath
-  Proofs.MemProofs Proofs.MemCalls Proofs.MemPublic Proofs.WalkProofs.
+  Layer.Overlay Proofs.MemProofs Proofs.MemCalls Proofs.MemPublic Proofs.WalkProofs Proofs.OvlProofs Proofs.OvlList.
 
 Notation mstate := (gmap (list (list N)) memfile).
 
@@ -74,6 +74,21 @@ Example C05_example :
   mem_children s [[97%N]] = [[97%N]; [98%N]] /\ mem_children s [] = [[97%N]] /\ mem_children s [[97%N]; [97%N]] = [].
 Proof. vm_compute. repeat split; reflexivity. Qed.
 
+(** through an OverlayFS over two MemoryFS layers of arbitrary well-formed contents: a directory's
+    listing and exists tell one story - a name is listed iff the child exists through the overlay.
+    The marker hypothesis is the invariant the overlay keeps between calls (an entry of the write layer
+    has no deletion marker of its own) *)
+Theorem C05_overlay_listing_matches_exists : forall hs lg ft (s0 s1 : mstate) (p : path),
+  wf s0 -> wf s1 -> p <> [] ->
+  s0 !! whiteout_path (v0, []) p = None ->
+  (is_dir s0 p \/ (s0 !! p = None /\ is_dir s1 p)) ->
+  (s0 !! (whiteout_name :: p) = None \/ is_dir s0 (whiteout_name :: p)) ->
+  (forall n, is_Some (s0 !! (p ++ [n])) -> s0 !! whiteout_path (v0, []) (p ++ [n]) = None) ->
+  exists l, run bhandler (ovl_read_dir (v0, []) [(v1, [])] p) (mstore2 s0 s1 hs lg ft) = (mstore2 s0 s1 hs lg ft, Ok l) /\
+    forall n, n ∈ l <->
+      run bhandler (ovl_exists (v0, []) [(v1, [])] (p ++ [n])) (mstore2 s0 s1 hs lg ft) = (mstore2 s0 s1 hs lg ft, Ok true).
+Proof. exact listing_matches_exists. Qed.
+
 Print Assumptions C05_exists_iff_listed.
 Print Assumptions C05_listed_once.
 Print Assumptions C05_exists.
@@ -83,3 +98,4 @@ Print Assumptions C05_open_file.
 Print Assumptions C05_example.
 Print Assumptions C05_walk_dir.
 Print Assumptions C05_walk_exactly_the_descendants.
+Print Assumptions C05_overlay_listing_matches_exists.
